@@ -1,6 +1,7 @@
 import ShootVerif.Drive.Common
 import ShootVerif.Drive.Ctor
 import ShootVerif.Proofs.GenState
+import ShootVerif.Proofs.Repair
 namespace ShootVerif.Drive
 open ShootVerif.GenState
 
@@ -86,6 +87,12 @@ def linesOf {τ ω : Type} (nameOf : τ → String) (showO : String → ω → L
       ++ names.map (fun n => ("same:" ++ n, toString (decide (find comb n = find base n)))),
    sep.flatMap (fun p => showO (nameOf p.1) p.2) ++ names.map (fun n => ("same:" ++ n, "true")))
 
+/-- `(repair none|full)`: default = the code at HEAD (`codeRepair`) -/
+def repairOf (p : Sexp) : Repair := match p.field? "repair" with
+  | some (.list [_, .atom "none"]) => noRepair
+  | some (.list [_, .atom "full"]) => fullRepair
+  | _ => codeRepair
+
 def leaksOf (p : Sexp) : Leaks := match p.field? "leaks" with
   | some (.list [_, .atom "none"]) => noLeaks
   | _ => codeToday
@@ -136,18 +143,20 @@ def genstateCase (id : String) (payload : List Sexp) : List String :=
       let m := newMachine lk fl
       -- separate processes: with -getset each one sees the files the earlier ones wrote; without it the
       -- written files declare nothing that is ever read back
+      let rp := repairOf p
       let ots := match orig with | some o => reorder (·.name) ts o | none => ts
-      let sep := oneAtATime m disk ots
-      let comb := if soloMode then sep else generate m disk ts
+      -- one process per type, in list order; with the repair (`depsFirst`): dependencies first, reported in list order
+      let sep := if rp.depsFirst && !soloMode then inListOrder ots (oneAtATime m disk (processingOrder rp ots)) else oneAtATime m disk ots
+      let comb := if soloMode then oneAtATime m disk ots else generateR rp m .sep disk ts
       -- a permuted list is compared with the combined run over the original list (`same:T`)
-      let base := if orig.isSome then generate m disk ots else sep
+      let base := if orig.isSome then generateR rp m .sep disk ots else sep
       let (ml, sl) := linesOf (·.name) showNOut comb sep base
       let crossFlag := !fl.getset && disk.any (fun f => !f.defs.isEmpty)
       let reg0 := if soloMode then (if newRegion noLeaks fl disk { st := {}, overlay := [], outs := [] } ts == "Out" then "Out" else "WF")
         else if crossFlag then "Out"
         else newRegion lk fl disk { st := {}, overlay := [], outs := [] } ts
       let reg1 := if reg0 == "WF" && orig.isSome then newRegion lk fl disk { st := {}, overlay := [], outs := [] } ots else reg0
-      let reg := if reg1 == "WF" && orig.isSome && fl.getset && !(depsFirst ts [] && depsFirst ots []) then "F_embedderFirst" else reg1
+      let reg := if reg1 == "WF" && orig.isSome && fl.getset && !rp.depsFirst && !(depsFirst ts [] && depsFirst ots []) then "F_embedderFirst" else reg1
       both id ml sl reg
   else if cmd == "map" then
     match tys.mapM parseMType with
